@@ -196,6 +196,15 @@ def o3(tier):
     return r
 
 
+def o4(tier):
+    """SQLite: writing the pending record can never delete another group's row"""
+    from props import C10
+    r = C10.o4(tier)
+    r.oid = 'O4'
+    r.title = 'SQLite save_group/save_welcome (shared with C10-O4): no INSERT OR REPLACE on a table with cascade children or several uniqueness constraints (a colliding Nostr group id must be refused, not resolved by deleting the other group)'
+    return r
+
+
 def run(tier, seed, only=None):
-    obs = [('O1', o1), ('O2', o2), ('O3', o3)]
+    obs = [('O1', o1), ('O2', o2), ('O3', o3), ('O4', o4)]
     return [f(tier) for k, f in obs if not only or k in only]
